@@ -17,7 +17,7 @@ N = 2
 A_, B_, C_ = ("ref", "a"), ("ref", "b"), ("ref", "c")
 
 FACTORY = {
-    "calc d": lambda ch: ("calc", ch, "d", ("add", A_, B_)),
+    "calc d": lambda ch: ("calc", ch, "e", ("add", A_, B_)),
     "proj -b": lambda ch: ("proj", ch, ("a", "c")),
     "sel a>k": lambda ch: ("sel", ch, ("gt", A_, ("lit", "$k"))),
     "sel b in [a,k]": lambda ch: ("sel", ch, ("inseq", B_, (A_, ("lit", "$k")))),
